@@ -28,6 +28,7 @@ structure Req where
   vi : Nat
   mean : Bool
   kept : Option (List NodeInfo)
+  keptPaths : Option (List (List NodeInfo))   -- call-tree mode: kept nodes by path from the root
   clean : List (Str × Str)
   p : Profile
 
@@ -39,9 +40,10 @@ def rdReq : Rd Req := do
   let vi ← Rd.nat
   let mean ← Rd.bool
   let kept ← Rd.opt (Rd.list rdNodeInfo)
+  let keptPaths ← Rd.opt (Rd.list (Rd.list rdNodeInfo))
   let clean ← Rd.list (do let a ← Rd.str; let b ← Rd.str; pure (a, b))
   let p ← Rd.profile
-  pure { callTree, o := { objNames, origFnNames }, agg, vi, mean, kept, clean, p }
+  pure { callTree, o := { objNames, origFnNames }, agg, vi, mean, kept, keptPaths, clean, p }
 
 def cleanFn (tbl : List (Str × Str)) (s : Str) : Str :=
   match tbl.lookup s with
@@ -107,7 +109,7 @@ def modelTables {κ : Type} [DecidableEq κ] (toKey : κ → List NodeInfo) (g :
     edges := g.edges.map (fun ((a, b), e) => (toKey a, toKey b, e.weight, e.residual)),
     total := total }
 
-def keptFn (k : Option (List NodeInfo)) : NodeInfo → Bool :=
+def keptFn {κ : Type} [DecidableEq κ] (k : Option (List κ)) : κ → Bool :=
   match k with
   | none => fun _ => true
   | some l => fun n => l.contains n
@@ -117,7 +119,7 @@ def runSpec (r : Req) : String :=
   | none => "invalid"
   | some ss =>
     if r.callTree then
-      renderTables (specTables (κ := List NodeInfo) id (fun _ => true) (ss.map treeSample) (totalSpec ss))
+      renderTables (specTables (κ := List NodeInfo) id (keptFn r.keptPaths) (ss.map treeSample) (totalSpec ss))
     else
       renderTables (specTables (κ := NodeInfo) (fun n => [n]) (keptFn r.kept) ss (totalSpec ss))
 
